@@ -77,18 +77,26 @@ impl Window {
             },
         };
 
+        // Las jambas están en planos verticales (contienen la normal del opaco y la dirección Y del opaco,
+        // y su normal es el eje X del opaco, que es horizontal). En su plano, la dirección Y del opaco
+        // y la del retranqueo están giradas según la inclinación del opaco (con tilt = 90º no hay giro).
+        let (sin_t, cos_t) = wallgeom.tilt.to_radians().sin_cos();
+        // Punto del plano de la jamba izquierda: a en la dirección Y del opaco y b hacia el interior
+        let left_pt = |a: f32, b: f32| point![a * cos_t + b * sin_t, a * sin_t - b * cos_t];
+        let right_pt = |a: f32, b: f32| point![-(a * cos_t + b * sin_t), a * sin_t - b * cos_t];
+
         let left_fin = Shade {
             id: uuid_from_str(&format!("{}-left_setback", self.id)),
             name: format!("{}_left_setback", self.name),
             geometry: WallGeom {
-                tilt: wallgeom.tilt,
+                tilt: 90.0,
                 azimuth: wallgeom.azimuth + 90.0,
                 position: Some(wall2world * point![wpos.x, wpos.y + wing.height, 0.0]),
                 polygon: vec![
-                    point![0.0, 0.0],
-                    point![0.0, -wing.height],
-                    point![wing.setback, -wing.height],
-                    point![wing.setback, 0.0],
+                    left_pt(0.0, 0.0),
+                    left_pt(-wing.height, 0.0),
+                    left_pt(-wing.height, wing.setback),
+                    left_pt(0.0, wing.setback),
                 ],
             },
         };
@@ -97,14 +105,14 @@ impl Window {
             id: uuid_from_str(&format!("{}-right_setback", self.id)),
             name: format!("{}_right_setback", self.name),
             geometry: WallGeom {
-                tilt: wallgeom.tilt,
+                tilt: 90.0,
                 azimuth: wallgeom.azimuth - 90.0,
                 position: Some(wall2world * point![wpos.x + wing.width, wpos.y + wing.height, 0.0]),
                 polygon: vec![
-                    point![0.0, 0.0],
-                    point![-wing.setback, 0.0],
-                    point![-wing.setback, -wing.height],
-                    point![0.0, -wing.height],
+                    right_pt(0.0, 0.0),
+                    right_pt(0.0, wing.setback),
+                    right_pt(-wing.height, wing.setback),
+                    right_pt(-wing.height, 0.0),
                 ],
             },
         };
